@@ -407,7 +407,7 @@ var caseSeq int64
 // newHome creates a fresh database home for one case.
 func newHome() string {
 	n := atomic.AddInt64(&caseSeq, 1)
-	d := filepath.Join(verifkit.WorkDir(), fmt.Sprintf("c%d", n))
+	d := filepath.Join(verifkit.WorkDir(), fmt.Sprintf("c%d-%d", os.Getpid(), n)) // fuzz workers are separate processes sharing one work directory
 	os.RemoveAll(d)
 	os.MkdirAll(d, 0755)
 	return d
